@@ -3,6 +3,7 @@ package annotations
 import (
 	"go/ast"
 	"go/token"
+	"go/types"
 	"regexp"
 	"strings"
 
@@ -535,11 +536,22 @@ func ReadAllAnnotations(
 	// Filter files based on configuration (skip test files by default)
 	filesToScan := cfg.FilterFiles(pass)
 
+	// Imported packages by path: an import is known under the imported package's
+	// declared name, which may differ from the last element of its path
+	importedPackages := make(map[string]*types.Package)
+	for _, imported := range pass.Pkg.Imports() {
+		importedPackages[imported.Path()] = imported
+	}
+
 	for file := range filesToScan {
 		// Build import map for this file
 		imports := &util.ImportMap{}
 		for _, imp := range file.Imports {
-			imports.Add(imp, pass.Pkg)
+			var imported *types.Package
+			if imp.Path != nil {
+				imported = importedPackages[strings.Trim(imp.Path.Value, `"`)]
+			}
+			imports.Add(imp, imported)
 		}
 
 		for _, n := range file.Decls {
